@@ -41,7 +41,7 @@ def run(ctx):
                 lines.append("RT %s %s %d %s" % (ty, bo, prefix, " ".join(toks)))
             else:
                 lines.append("RP %s %d %s" % (bo, prefix, " ".join(toks)))
-    ok, impl, err = vlib.par_run_lines(exe, [], lines)
+    ok, impl, err = vlib.par_run_lines(exe, [], lines, robust=True)
     if not ok:
         ctx.tie_broken("wire harness crashed", err)
         return
